@@ -24,7 +24,7 @@ type BuildOpts struct {
 }
 
 func BuildAPI(root *ggql.Root, s *Schema, o BuildOpts) (err error, usable bool) {
-	if s.Roots != nil || len(s.ExtRoots) > 0 || len(s.RootDirs) > 0 {
+	if s.Roots != nil || len(s.ExtRoots) > 0 || len(s.RootDirs) > 0 || len(s.ExtRootDirs) > 0 {
 		return nil, false
 	}
 	s = readerNormalDescs(s)
